@@ -98,6 +98,28 @@ def parseOutputs : Nat → List String → Except String (List (Output BigF))
       return (rowsOf ni dm v) :: os
   | _ + 1, _ => .error "arity-outputs"
 
+/-- user-level kernel argument: `0` = None, `1 <kernel>` = one kernel, `2 n (- | <kernel>)*` = list with None entries -/
+def parseOptKernels : Nat → List String → Except String (List (Option (BigF → BigF)) × List String)
+  | 0, rest => .ok ([], rest)
+  | c + 1, "-" :: rest => do
+      let (ks, rest) ← parseOptKernels c rest
+      return (none :: ks, rest)
+  | c + 1, ts => do
+      let (kf, rest) ← parseKernel ts
+      let (ks, rest) ← parseOptKernels c rest
+      return (some kf :: ks, rest)
+
+def parseKSpec : List String → Except String (KSpec BigF × List String)
+  | "0" :: rest => .ok (KSpec.none, rest)
+  | "1" :: rest => do
+      let (kf, rest) ← parseKernel rest
+      return (KSpec.single kf, rest)
+  | "2" :: n :: rest => do
+      let n ← nat n
+      let (ks, rest) ← parseOptKernels n rest
+      return (KSpec.list ks, rest)
+  | _ => .error "bad-kspec"
+
 def parsePairs : List BigF → List (BigF × BigF)
   | a :: b :: rest => (a, b) :: parsePairs rest
   | _ => []
@@ -213,6 +235,29 @@ def opsC08 : List (String × Handler) := [
         let outs := (List.range nst).map fun i => gnRun pr o0 (solves.take (i + 1))
         return fmt (outs.flatMap fun o =>
           [BigF.ofNat o.p, o.loss.getD BigF.zero, o.last.getD BigF.zero, BigF.ofNat (if o.last.isSome then 1 else 0)])
+      | _ => throw "arity"),
+  -- c08.lossk <kspec> nouts (nitems dim values*)*  -> loss of an optimizer constructed with kernel=<kspec>
+  ("c08.lossk", fun ts => do
+      let (spec, rest) ← parseKSpec ts
+      match rest with
+      | no :: rest =>
+        let no ← nat no
+        let outs ← parseOutputs no rest
+        return fmt [lossOf spec outs]
+      | _ => throw "arity"),
+  -- c08.init kind a b  -> damping radius down of the param group a strategy constructor produces
+  --   kind 0: Constant(damping=a); 1: Adaptive(damping=a, down=b); 2: TrustRegion(radius=a, down=b)
+  ("c08.init", fun ts => do
+      match ts with
+      | [kd, a, b] =>
+        let kd ← nat kd
+        let a ← num a
+        let b ← num b
+        let s := match kd with
+          | 0 => initConstant a
+          | 1 => initAdaptive a b
+          | _ => initTrust a b
+        return fmt [s.damping, s.radius, s.down]
       | _ => throw "arity"),
   -- c08.loss nk kernel* nouts (nitems dim values*)*  -> loss
   ("c08.loss", fun ts => do
